@@ -148,6 +148,11 @@ def d_unit_and_monitor(ctx, n):
         prev_rows = 0
         prev_scores = 0
         for c, o in zip(spec["calls"], r["obs"]):
+            hm = dunit.history_mismatch(o)
+            if hm:
+                ctx.violation(dict(kind="history-mismatch", optimizer=spec["name"]), dict(spec=dunit.spec_full(spec), call=jsonable(c)),
+                              "%s: %s" % (spec["name"], hm))
+                break
             scores = o["score_l"][prev_scores:]
             if spec.get("metric_named_score"):
                 scores = [float(x[0]) for x in spec["script"][prev_scores:prev_scores + len(scores)]]      # what the objective returned as score
